@@ -78,7 +78,11 @@ func (c *Config) load(configPath string, isGlobal bool) error {
 				c.local[ident] = make(kv)
 			}
 		} else {
-			splitText := strings.Split(strings.Replace(text, "\t", "", -1), "=")
+			// "key = value": the value is everything after the first '='
+			splitText := strings.SplitN(strings.Replace(text, "\t", "", -1), "=", 2)
+			if len(splitText) != 2 || ident == "" {
+				return ErrInvalidIdentifier
+			}
 			key := strings.TrimSpace(splitText[0])
 			value := strings.TrimSpace(splitText[1])
 			if isGlobal {
